@@ -32,9 +32,9 @@ func init() {
 	addProperty(&Property{
 		ID:         "C15",
 		Title:      "Operand and successor views are complete and live",
-		Decided:    "every value.Value slot reachable from an instruction or terminator (through operand-carrier structs and slices) has its address returned by Operands() (OPS-1); every returned element is the address of a slot rooted at the pointer receiver (OPS-2); Succs() reads every constructor-filled target field in order (OPS-3).",
+		Decided:    "every value.Value slot reachable from an instruction or terminator (through operand-carrier structs and slices) has its address returned by Operands() (OPS-1); every returned element is the address of a slot rooted at the pointer receiver (OPS-2); Succs() reads every constructor-filled target field in order (OPS-3); both views are pure — no cached state that can go stale (OPS-4, SSA write effects).",
 		NotDecided: "that a replacement through *ir.Arg-wrapped argument slots is found by a client comparing *slot == old; that all successors are blocks of the same function for constructed IR.",
-		Rules:      []RuleUse{{Rule: "OPS-1"}, {Rule: "OPS-2"}, {Rule: "OPS-3"}},
+		Rules:      []RuleUse{{Rule: "OPS-1"}, {Rule: "OPS-2"}, {Rule: "OPS-3"}, {Rule: "OPS-4"}},
 	})
 	addProperty(&Property{
 		ID:         "C16",
@@ -103,9 +103,9 @@ func init() {
 	addProperty(&Property{
 		ID:         "C06",
 		Title:      "Result types agree with LLVM's typing rules, in parser and IR alike",
-		Decided:    "vector result types keep the scalability of the vector type their length comes from, on every site in parser, instructions, constant expressions and the gep walk (TYP-1); the parser never caches a result type before the fields it is computed from are set (CACHE-ORDER); every lazily typed value is typed at creation by constructors and parser, which numbering and printing rely on (RACE-3, CTOR-2); getelementptr types come from one shared walk (GEP-WALK).",
-		NotDecided: "that the parser-side and library-side computations denote the same type term for every kind (TYP-AGREE, not built in this revision); that the common computation equals LLVM's rule when both sides are wrong in the same way.",
-		Rules:      []RuleUse{{Rule: "TYP-1"}, {Rule: "CACHE-ORDER"}, {Rule: "RACE-3"}, {Rule: "CTOR-2"}, {Rule: "GEP-WALK"}},
+		Decided:    "for every lazily typed instruction, terminator and constant-expression kind, the parser's precomputed result type and the library's Type() normalise to the same symbolic term over operand types, syntactic components, assertions, selections and type constructors, and constant expressions agree with the instruction of the same opcode (TYP-AGREE; call/invoke/callbr/phi/alloca are compared by the stated LLVM axiom and exempt); vector result types keep the scalability of the vector type their length comes from, on every site in parser, instructions, constant expressions and the gep walk (TYP-1); the parser never caches a result type before the fields it is computed from are set (CACHE-ORDER); every lazily typed value is typed at creation by constructors and parser, which numbering and printing rely on (RACE-3, CTOR-2); getelementptr types come from one shared walk (GEP-WALK).",
+		NotDecided: "that the common term equals LLVM's typing rule when both sides are wrong in the same way (only TYP-1 and the listed axioms encode LLVM facts); kinds whose type is not lazily computed (casts, load, va_arg, landingpad: the type is a syntactic field copied verbatim, covered by FLOW).",
+		Rules:      []RuleUse{{Rule: "TYP-AGREE"}, {Rule: "TYP-1"}, {Rule: "CACHE-ORDER"}, {Rule: "RACE-3"}, {Rule: "CTOR-2"}, {Rule: "GEP-WALK"}},
 	})
 	addProperty(&Property{
 		ID:         "C07",
